@@ -182,9 +182,7 @@ class World:
                 self.junk.append([object() for _ in range((junk * (i + 3)) % 11)])
             kind = spec["kind"]
             if kind == "flag":
-                obj = Flag()
-                if spec.get("init"):
-                    obj._value = True      # set before the run starts (no waiter exists yet)
+                obj = Flag()               # flags with "init" are set by root() via the API
             elif kind == "tracked":
                 obj = Tracked(spec.get("init", 0))
             elif kind == "lock":
@@ -355,11 +353,8 @@ class World:
         return self.serial
 
     def _current_activity(self):
-        try:
-            from usim._core.handler import __USIM_STATE__
-            return __USIM_STATE__.loop.activity
-        except Exception:
-            return None
+        # the coroutine the kernel is activating right now, as seen by the seam (no usim internals)
+        return self.seam.current_target
 
     async def actor(self, spec):
         name = spec["name"]
@@ -432,6 +427,9 @@ class World:
             self.junk.append([object() for _ in range(self.config["junk"])])
         self.make_resources()
         self.seam.register(self._current_activity(), "root")
+        for name, spec in self.scenario.get("resources", {}).items():
+            if spec.get("kind") == "flag" and spec.get("init"):
+                await self.res[name].set()       # before any actor exists
         async with Scope() as scope:
             self.root_scope = scope
             self.scopes["root"] = scope
